@@ -8,7 +8,7 @@ from checks_run import run_modules
 
 # which property a call speaks about
 PROP_OF = {"eq": "C01", "pcmp": "C01", "cmp": "C01", "hash": "C06", "clone": "C07", "clone_from": "C07", "bin": "C08", "assign": "C08",
-           "un": "C08", "debug": "C10", "default": "C11", "deref_write": "C18", "deref_read": "C18", "set": None}
+           "un": "C08", "debug": "C10", "debug_alt": "C10", "default": "C11", "deref_write": "C18", "deref_read": "C18", "set": None}
 
 
 def behaviours(tier, ck, focus="any"):
